@@ -310,8 +310,27 @@ def s_args_named_like_params(rng, nval):
     return _mk(prog, "arguments_named_like_parameters", rng, nval, edges={"a": list(range(-5, 15))})
 
 
+def s_nested_param_vs_inner_local(rng, nval):
+    """A function called from another function declares a local with the name of the OUTER function's parameter."""
+    types = gen.Types(rng)
+    prog = [["input", "a", types.fresh(), rng.randint(-3, 12)]]
+    k1, k2 = rng.randint(2, 5), rng.randint(1, 9)
+    prog.append(["func", "inner", [["Signal", "s"]], [["sig", "x", ["b", "*", ["v", "s"], ["n", k1]]]],
+                 ["b", "+", ["v", "x"], ["n", k2]]])
+    arg = rng.choice([["b", "+", ["v", "x"], ["n", rng.randint(1, 9)]], ["v", "x"], ["b", "*", ["v", "x"], ["n", 3]]])
+    body = []
+    if rng.random() < 0.5:
+        body.append(["sig", "y", ["b", "-", ["v", "x"], ["n", 1]]])
+        ret = ["b", "+", ["call", "inner", [arg]], ["v", "y"]]
+    else:
+        ret = ["call", "inner", [arg]]
+    prog.append(["func", "outer", [["Signal", "x"]], body, ret])
+    prog.append(["sig", "r", ["p", ["call", "outer", [["v", "a"]]], types.fresh()]])
+    return _mk(prog, "nested_call_inner_local_named_like_outer_parameter", rng, nval, edges={"a": list(range(-5, 15))})
+
+
 STRATA = [(s_scalar, 4), (s_untyped_result, 2), (s_shadow, 3), (s_entity_param, 2), (s_entity_return, 2),
-          (s_local_memory, 2), (s_nested, 3), (s_in_loop, 2), (s_int_clash, 3), (s_iter_clash, 2), (s_sigparam_clash, 2), (s_param_shadowed_by_iterator, 2), (s_param_projected, 2), (s_returned_local_read_in_callee, 2), (s_local_memory_named_like_callers, 2), (s_latch_in_function, 2), (s_args_named_like_params, 3)]
+          (s_local_memory, 2), (s_nested, 3), (s_in_loop, 2), (s_int_clash, 3), (s_iter_clash, 2), (s_sigparam_clash, 2), (s_param_shadowed_by_iterator, 2), (s_param_projected, 2), (s_returned_local_read_in_callee, 2), (s_local_memory_named_like_callers, 2), (s_latch_in_function, 2), (s_args_named_like_params, 3), (s_nested_param_vs_inner_local, 2)]
 
 
 def gen_cases(tier, seed):
